@@ -31,7 +31,12 @@ class FunctionSource:
 
 def module_path(modname: str) -> str:
     rel = modname.replace(".", "/")
-    for cand in (f"{REPO}/Lib/{rel}.py", f"{REPO}/Lib/{rel}/__init__.py"):
+    cands = [f"{REPO}/Lib/{rel}.py", f"{REPO}/Lib/{rel}/__init__.py"]
+    if modname.split(".")[0] == "selftest":
+        # the engine's own self-tests (/verif/selftest/cases_*.py) are extracted the same way as repo code
+        root = os.path.dirname(os.path.dirname(os.path.abspath(__file__)))
+        cands = [f"{root}/{rel}.py"]
+    for cand in cands:
         if os.path.exists(cand):
             return cand
     raise FileNotFoundError(modname)
